@@ -255,3 +255,149 @@ def c05_2(run):
     if not n_skip or not n_exec:
         raise Inconclusive(f'vacuity: skip paths {n_skip}, executing paths {n_exec}')
     run.require_reached(*run.cur.reach)
+
+
+# ----------------------------------------------------------------------------------------------------------------- C05-3
+def finalize_hooks(ntx):
+    R = re.compile
+
+    def h_post_result(ctx, s):
+        o = B.struct(ctx.ex, 'PostTransactionExecutionResult', events=M.new_vec('Vec<Event>', []), tx_results=M.new_vec('Vec<(TransactionId, ExecTxResult)>', []),
+                     validator_updates=M.new_vec('Vec<ValidatorUpdate>', []), consensus_param_updates=none(), injected_tx_count=z3.BitVec('injected_tx_count', 64))
+        return o
+
+    def h_txs(ctx, s):
+        return M.new_vec('Vec<Arc<CheckedTransaction>>', [Obj('Arc<CheckedTransaction>', kind='arc') for _ in range(ntx)])
+
+    def h_exec(ctx):
+        st = ctx.st
+        n = sum(1 for e in st.log if e[0] == 'eff' and e[1] == 'execute_txs')
+        okv, nonfatal = z3.Bool(f'execute_tx_ok_{n}'), z3.Bool(f'execute_tx_nonfatal_{n}')
+        st.log.append(('eff', 'execute_txs', z3.BoolVal(True)))
+
+        def mk_err(s2):
+            e = Obj('checked_transaction::CheckedTransactionExecutionError')
+            a = ctx.ex.adts.lookup('CheckedTransactionExecutionError'); ca = [i for i, v in enumerate(a['variants']) if v['name'] == 'CheckedAction'][0]
+            other = [i for i, v in enumerate(a['variants']) if v['name'] != 'CheckedAction'][0]
+            inner = Obj('checked_actions::CheckedActionExecutionError')
+            b = ctx.ex.adts.lookup('CheckedActionExecutionError'); nf = [i for i, v in enumerate(b['variants']) if v['name'] == 'NonFatalExecution'][0]
+            oth2 = [i for i, v in enumerate(b['variants']) if v['name'] != 'NonFatalExecution'][0]
+            inner.discr = z3.If(nonfatal, z3.BitVecVal(nf, 64), z3.BitVecVal(oth2, 64))
+            e.discr = z3.If(z3.Bool(f'execute_tx_error_is_action_{n}'), z3.BitVecVal(ca, 64), z3.BitVecVal(other, 64))
+            e.fields[('CheckedAction', 0)] = inner
+            return err(e)
+        return [(None, M.thunk_future(lambda ex, s2, fut: [(okv, (lambda s3: ok(M.new_vec('Vec<Event>', [])))), (z3.Not(okv), mk_err)]))]
+    empty_iter = lambda ctx: [(None, M.new_vec('Vec', []))]
+    hs = [h for h in app_hooks() if 'App::execute_transaction$' not in h[0].pattern and 'construct_checked_txs' not in h[0].pattern]
+    return [
+        (R(r'^(app::vote_extension::)?apply_prices_from_vote_extensions(::<.*>)?$'), eff('apply_prices', True)),
+        (R(r'(^|::)App::apply$'), eff('apply_state_delta', False, lambda c, s: M.new_vec('Vec<Event>', []), kind='plain')),
+        (R(r'^(cnidarium::)?StateDelta::<.*>::new$'), lambda ctx: [(None, Obj('StateDelta', kind='opaque'))]),
+        (R(r'(^|::)App::prepare_commit$'), eff('prepare_commit', True, lambda c, s: z3.BitVec('app_hash', 256))),
+        (R(r'Mempool::remove_tx_invalid$'), eff('mempool_remove', True, can_fail=False, kind='plain')),
+        (R(r'StateRead>::object_get::<PostTransactionExecutionResult>$'), eff('read_cached_post_result', False, lambda c, s: some(h_post_result(c, s)), kind='plain')),
+        (R(r'^(app::)?construct_checked_txs(::<.*>)?$'), eff('construct_checked_txs', True, h_txs)),
+        (R(r'(^|::)App::execute_transaction$'), h_exec),
+        (R(r'^std::iter::repeat_n::<'), lambda ctx: [(None, _empty_iter())]),
+        (R(r'^<Arc<.*> as Clone>::clone$'), lambda ctx: [(None, ctx.ex.deref_val(ctx.st, ctx.args[0]))]),
+        (R(r'^Arc::<.*>::new$'), lambda ctx: [(None, Obj('Arc', kind='opaque'))]),
+        (R(r'^<(tendermint::)?Time as Into<.*Timestamp>>::into$'), lambda ctx: [(None, Obj('Timestamp', kind='opaque'))]),
+        (R(r'AbciErrorCode::value$'), lambda ctx: [(None, z3.BitVecVal(1, 32))]),
+        (R(r'^<tendermint::abci::types::ExecTxResult as (std::default::)?Default>::default$'), lambda ctx: [(None, Obj('tendermint::abci::types::ExecTxResult', kind='opaque'))]),
+        (R(r'ErrReport>::new::<|ErrReport>::wrap_err::<|^<ErrReport as ToString>::to_string$|^<str as ToString>::to_string$|^<(std::string::)?String as Clone>::clone$'), lambda ctx: [(None, Obj('s', kind='opaque'))]),
+        (R(r'RemovalReason::FailedExecution$'), lambda ctx: [(None, Obj('RemovalReason', kind='opaque'))]),
+        (R(r'^(bytes::)?Bytes::len$'), lambda ctx: [(None, z3.BitVec('encoded_len', 64))]),
+    ] + hs
+
+
+def _empty_iter():
+    it = Obj('Iter', kind='iter'); it.attrs['src'] = M.new_vec('Vec', []); it.attrs['pos'] = 0; it.attrs['mode'] = 'val'
+    return it
+
+
+@obligation('C05', 'C05-3 finalize_block: cached results only for the block hash that was executed; otherwise one reset before execution; oracle prices are applied at the same point relative to block execution on every path')
+def c05_3(run):
+    sc = {k: v for k, v in SCALARS.items() if k != 'tendermint::Hash'}
+    n_skip = n_exec = 0
+    run.bound(states='all 6 ExecutionState variants with symbolic payloads', block='0 or 1 user transaction, with / without extended commit info, block hash Sha256(any) or empty',
+              steps='every step is an oracle that may fail; their ORDER and the skip decision are decided')
+    run.assume('on the skip path the block was executed by the earlier ProcessProposal/PrepareProposal call (that is what ExecutedBlock with this hash means), i.e. BEFORE anything finalize_block does')
+    run.assume('the post-execution result object is present in the ephemeral store whenever finalize_block reads it (post_execute_transactions stores it; the `expect` on it is not explored)')
+    for ntx in (0, 1):
+        ex = loader.load(['astria-sequencer'], scalar_types=sc, dep_adts=['tendermint'], hooks=finalize_hooks(ntx))
+        cands = [n for n in ex.fns if n.endswith('::finalize_block') and 'closure' not in n and ex.impl_self(n) == (None, 'App')]
+        if len(cands) != 1:
+            raise Inconclusive(f'App::finalize_block not found: {cands}')
+        for state in STATES:
+            m, cvals, ch = machine(ex, state)
+            bh = z3.BitVec('block_hash', 256)
+            hsh = Obj('tendermint::Hash'); a = ex.adts.lookup('tendermint::Hash')
+            sha = [i for i, v in enumerate(a['variants']) if v['name'] == 'Sha256'][0]; non = [i for i, v in enumerate(a['variants']) if v['name'] != 'Sha256'][0]
+            hsh.discr = z3.If(z3.Bool('block_hash_present'), z3.BitVecVal(sha, 64), z3.BitVecVal(non, 64)); hsh.fields[('Sha256', 0)] = bh
+            req = B.struct(ex, 'tendermint::abci::request::FinalizeBlock', hash=hsh, height=z3.BitVec('height', 64))
+            app = B.struct(ex, 'app::App', execution_state=m)
+            st = ex.start(cands[0], [B.cell(app), req, Obj('Storage', kind='opaque')])
+            for i, p in enumerate(run.explore(ex, st, poll=True, allow_havoc=DEFAULT_CTORS + (r'^Arguments::|fmt::', r'ExecTxResult', r'FinalizeBlock'))):
+                lab = f'[{state}, {ntx} txs, path {i}]'
+                if p.kind != 'return':
+                    # the documented expect(): the cached post-execution result must exist
+                    run.prove(f'no panic {lab}', p.pc, z3.BoolVal(False), detail=p.info); continue
+                kind, r = A.poll_result(p)
+                effs = [(e[1], e[2]) for e in p.log if e[0] == 'eff']
+                names = [n for n, _ in effs]
+                run.sample({'pre': state, 'txs': ntx, 'path': i, 'result': kind, 'effects': names})
+                execd = [j for j, n in enumerate(names) if n in ('pre_execute', 'check_upgrade_hashes', 'construct_checked_txs', 'execute_txs', 'post_execute')]
+                resets = [j for j, n in enumerate(names) if n == 'reset']
+                prices = [j for j, n in enumerate(names) if n == 'apply_prices']
+                may_skip = z3.And(z3.BoolVal(state == 'ExecutedBlock'), bh == ch)
+                claim = []
+                if execd:
+                    n_exec += 1
+                    claim += [z3.BoolVal(len(resets) == 1 and resets[0] < execd[0]), z3.Not(may_skip)]
+                    if prices:
+                        claim.append(z3.BoolVal(resets[0] < prices[0]))
+                elif 'read_cached_post_result' in names:
+                    n_skip += 1
+                    claim += [z3.BoolVal(not resets), may_skip]
+                if 'prepare_commit' in names:
+                    pj = names.index('prepare_commit')
+                    claim.append(z3.And(*[o for n, o in effs[:pj] if n != 'execute_txs']))
+                    claim.append(z3.BoolVal('read_cached_post_result' in names[:pj]))
+                    claim.append(z3.BoolVal((not execd) or 'post_execute' in names[:pj]))
+                run.prove(f'skip only for the executed block hash; otherwise exactly one reset before prices / execution; commit prepared only after every step succeeded {lab}', p.pc, z3.And(*claim) if claim else z3.BoolVal(True))
+                # relative order of the oracle price application and the block's execution: must not depend on the path
+                if prices:
+                    if execd:
+                        order = z3.BoolVal(prices[0] < execd[0])          # prices first, then the block
+                    else:
+                        order = z3.BoolVal(False)                          # block executed in the earlier call, prices only now
+                    run.prove(f'oracle prices are applied BEFORE the block\'s transactions execute (the order used when the block is executed inside finalize_block) {lab}', p.pc, order,
+                              classify=lambda model: 'prices-applied-after-cached-execution', replay=replay_f9)
+    if not n_skip or not n_exec:
+        raise Inconclusive(f'vacuity: skip paths {n_skip}, executing paths {n_exec}')
+    run.require_reached(*run.cur.reach)
+
+
+def replay_f9(model, path):
+    """native demonstration: two identically initialised Apps, one block carrying an oracle price for ETH/USD and a sudo removal of ETH/USD;
+    node A: ProcessProposal then FinalizeBlock (cached execution), node B: FinalizeBlock only"""
+    from vlib import replay
+    code = open('/verif/replay_templates/c05_prices.rs').read()
+    r = replay.run_crate_test('astria-sequencer', 'crates/astria-sequencer/src/app/tests_app/mod.rs', code, 'verif_replay_c05')
+    if not r['lines']:
+        return {'mode': 'native-crate-test', 'reproduced': None, 'error': r['output'][-1500:]}
+    o = r['lines'][-1]
+    differ = (o['a_finalize'] == 'ok') != (o['b_finalize'] == 'ok') or (o['a_finalize'] == 'ok' and o['a_app_hash'] != o['b_app_hash'])
+    return {'mode': 'native-crate-test', 'scenario': 'block with an oracle price for ETH/USD and a CurrencyPairsChange::Removal(ETH/USD); validator path vs sync path', 'observed': o,
+            'reproduced': o['a_process'] == 'ok' and differ}
+
+
+@obligation('C05', 'C05-3n native demonstration of the recorded finding F9 (informational: records whether it still reproduces; never fails the check)', tiers=('thorough',))
+def c05_3n(run):
+    run.bound(scenario='one concrete block, two Apps (validator path / sync path)')
+    v = replay_f9(None, None)
+    run.sample({'native_demonstration': v})
+    run.cur.paths += 1
+    run.reached('native demonstration executed')
+    if v.get('reproduced') is None:
+        run.cur.notes.append('native demonstration of F9 could not be run: ' + str(v.get('error'))[-300:])
